@@ -462,13 +462,38 @@ class Engine:
         return a.bits == b.bits
 
     # ------------------------------------------------------------------ block execution
-    def exec_block(self, fr, b, st):
+    def exec_block(self, fr, b, st, start=0):
         blk = fr.body["blocks"][b]
         if blk["cleanup"]:
             return []
-        for s in blk["stmts"]:
+        for si in range(start, len(blk["stmts"])):
+            s = blk["stmts"][si]
             k = s["k"]
             if k == "assign":
+                rv = s["rv"]
+                if rv["k"] == "cast" and rv.get("ck", rv.get("kind", "")) in ("IntToInt", "") :
+                    # `flag as usize` on a named input flag: decided like a branch on the flag (two successors), so that
+                    # `16 * flag as usize` is a constant per partition instead of an opaque product
+                    src = self.eval_operand(fr, st, rv["a"])
+                    if isinstance(src, Bool):
+                        c = self.simplify_cond(st, src.cond)
+                        while c[0] == "not":
+                            c = c[1]
+                        if c[0] == "sym" and "#" not in str(c[1]):
+                            outs = []
+                            for truth in (True, False):
+                                ns = st.fork()
+                                try:
+                                    ki = self.assume(ns, src.cond, truth)
+                                except Dead:
+                                    continue
+                                if ki is not None and ki not in ns.key:
+                                    ns.key = ns.key + (ki,)
+                                try:
+                                    outs.extend(self.exec_block(fr, b, ns, si))
+                                except Dead:
+                                    continue
+                            return outs
                 v = self.eval_rvalue(fr, st, s["rv"], s)
                 loc, path = self.M.resolve(st, fr, s["p"])
                 self.M.write_path(st, loc, path, v)
@@ -520,6 +545,10 @@ class Engine:
         if "promoted" in k:
             return self.eval_promoted(fr, st, k["promoted"])
         kind = t["k"]
+        if "uneval" in k and "int" not in k and "tree" not in k:
+            r = self._resolve_trait_const(fr, k)
+            if r is not None:
+                k = dict(k, **r)
         if "int" in k:
             if kind == "bool":
                 return TRUE if int(k["int"]) else FALSE
@@ -564,6 +593,28 @@ class Engine:
                     return Struct(ti, ())
             return Top(ti, "zst")
         return self.top_of(ti, "const")
+
+    _UNEVAL = re.compile(r"^<(\w+) as ([\w:]+)>::(\w+)$")
+
+    def _resolve_trait_const(self, fr, k):
+        """`<P as Trait>::NAME` with P a type parameter the frame instantiates: the value the implementing type gives
+        (the driver lists `<Impl as Trait>::NAME` for every impl of a local trait, defaults included)."""
+        m = self._UNEVAL.match(str(k.get("uneval", "")))
+        if not m:
+            return None
+        p, tr, name = m.groups()
+        ti = fr.sub.get(p)
+        if ti is None:
+            f = fr.parent
+            while f is not None and ti is None:
+                ti = f.sub.get(p)
+                f = f.parent
+        if ti is None:
+            return None
+        c = self.F.consts.get("<%s as %s>::%s" % (self.T.s(ti), tr, name))
+        if not c:
+            return None
+        return {kk: c[kk] for kk in ("int", "bits", "size", "tree", "bytes", "ptr_bytes", "indirect_bytes") if kk in c}
 
     def const_tree(self, t):
         """Value of a structured aggregate constant (driver: layout-independent tree of arrays / tuples / ADTs of ints)."""
